@@ -7,7 +7,9 @@
 set -u
 export GOFLAGS=-mod=mod GOPROXY=off GOSUMDB=off GOTOOLCHAIN=local
 ID="$1"; M="$2"; shift 2; CHECKS="$ID $*"
-SRC="/tmp/seedout-$ID/$M"
+R="${ROUND:-1}"; SFX=""; SRCBASE="/tmp/seedout-$ID"
+if [ "$R" != "1" ]; then SFX="-r$R"; SRCBASE="/tmp/seedout$R-$ID"; fi
+SRC="$SRCBASE/$M"
 [ -f "$SRC/patch.diff" ] || { echo "$ID/$M: no patch.diff"; exit 3; }
 D="$(mktemp -d /tmp/seedchk-XXXXXX)"; trap 'rm -rf "$D"' EXIT
 rsync -a --exclude .git /repo/ "$D/clean/"; rsync -a --exclude .git /repo/ "$D/mut/"
@@ -38,7 +40,7 @@ run_demo "$D/mut"; rcw=$?; cp "$D/demo.log" "$D/demo_with.log" 2>/dev/null
 run_demo "$D/clean"; rco=$?; cp "$D/demo.log" "$D/demo_without.log" 2>/dev/null
 [ $rcw -ne 0 ] && [ $rcw -ne 99 ] && demo_with=FAILS || demo_with="passes(rc=$rcw)"
 [ $rco -eq 0 ] && demo_without=passes || demo_without="FAILS(rc=$rco)"
-OUT="/verif/seeded/$ID-$M"; mkdir -p "$OUT"
+OUT="/verif/seeded/$ID$SFX-$M"; mkdir -p "$OUT"
 cp "$SRC/patch.diff" "$OUT/"; [ -f "$SRC/demo_test.go" ] && cp "$SRC/demo_test.go" "$OUT/demo_test.go.txt"; [ -d "$SRC/demo" ] && { mkdir -p "$OUT/demo"; for f in "$SRC"/demo/*; do cp "$f" "$OUT/demo/$(basename "$f").txt"; done; }
 results=""
 for chk in $CHECKS; do
